@@ -88,7 +88,19 @@ pub fn run(kv: &Args) -> i32 {
         muts.push(("s+1".into(), t, proof.s + one, y, base, mk(&ctx)));
         muts.push(("s=-s".into(), t, -proof.s, y, base, mk(&ctx)));
         let mut c2 = mk(&ctx); c2.party += 1; muts.push(("party".into(), t, proof.s, y, base, c2));
+        for (nm, d) in [("party+256", 256usize), ("party+65536", 65536), ("party+2^32", 1usize << 32), ("party+2^56", 1usize << 56)] {
+            let mut c2 = mk(&ctx); c2.party += d; muts.push((nm.into(), t, proof.s, y, base, c2));
+        }
+        // coordinated sign changes (points absorbed or compared without their sign would let these through)
+        muts.push(("neg-y,t,s".into(), -t, -proof.s, -y, base, mk(&ctx)));
+        muts.push(("neg-y,t".into(), -t, proof.s, -y, base, mk(&ctx)));
+        muts.push(("neg-B,s".into(), t, -proof.s, y, -base, mk(&ctx)));
+        muts.push(("neg-B".into(), t, proof.s, y, -base, mk(&ctx)));
+        muts.push(("neg-y".into(), t, proof.s, -y, base, mk(&ctx)));
         let mut c2 = mk(&ctx); c2.sid.push(0); muts.push(("sid-extended".into(), t, proof.s, y, base, c2));
+        if !ctx.sid.is_empty() { let mut c2 = mk(&ctx); c2.sid.pop(); muts.push(("sid-truncated".into(), t, proof.s, y, base, c2)); }
+        if !ctx.action.is_empty() { let mut c2 = mk(&ctx); c2.action.pop(); muts.push(("action-truncated".into(), t, proof.s, y, base, c2)); }
+        { let mut c2 = mk(&ctx); let a = c2.action.clone(); c2.action = c2.sid.clone(); c2.sid = a; muts.push(("sid<->action".into(), t, proof.s, y, base, c2)); }
         let mut c2 = mk(&ctx); c2.action.push(7); muts.push(("action".into(), t, proof.s, y, base, c2));
         let mut c2 = mk(&ctx); c2.label = leak(b"other-label"); muts.push(("label".into(), t, proof.s, y, base, c2));
         if !ctx.sid.is_empty() { let mut c2 = mk(&ctx); c2.sid[0] ^= 1; muts.push(("sid-bit".into(), t, proof.s, y, base, c2)); }
